@@ -836,6 +836,62 @@ def check_size_bookkeeping(ck, fn):
               fn.file, node.get("l"))
 
 
+def sorting_members(facts_list):
+    """per class: names of the members that (transitively, through members of the same class) call sort()"""
+    direct, calls = {}, {}
+    for fx in facts_list:
+        for f in fx.functions:
+            if f.tk == "pattern" or strip_targs(f.cls) not in ("FEAT::LAFEM::SparseVector", "FEAT::LAFEM::SparseVectorBlocked"):
+                continue
+            cs = set()
+            for n in f.nodes():
+                if n.get("k") == "MCall" and strip_targs(n.get("ccls", "")) == strip_targs(f.cls):
+                    cs.add(n.get("n"))
+            calls.setdefault(f.cls, {}).setdefault(f.name, set()).update(cs)
+    out = {}
+    for cls, m in calls.items():
+        srt = {name for name, cs in m.items() if "sort" in cs and name != "sort"} | {"sort"}
+        changed = True
+        while changed:
+            changed = False
+            for name, cs in m.items():
+                if name not in srt and cs & srt:
+                    srt.add(name)
+                    changed = True
+        out[cls] = srt
+    return out
+
+
+def check_sparse_insert(ck, fn, sorters):
+    """E7.no-resort-in-update: the element setter of a sparse vector clears the sorted flag and triggers no re-sort itself"""
+    key = "%s::operator()(%s)" % (short(fn.cls), ",".join(p["n"] for p in fn.params))
+    cfg = fn.cfg
+    clears = []
+    for n in fn.nodes():
+        if n.get("k") == "Assign" and n.get("op") == "=":
+            l = strip(n["lhs"])
+            if l.get("k") == "MCall" and l.get("n") == "_sorted" and is_zero(n["rhs"]):
+                clears.append(n)
+    srt = sorters.get(fn.cls)
+    if srt is None or cfg is None:
+        ck.incomplete("E7.no-resort-in-update", "%s: members of the class not available" % key)
+        return
+    if not clears:
+        # the flag may be cleared by another construct (helper, direct _scalar_index write)
+        ck.incomplete("E7.no-resort-in-update", "%s: no `_sorted() = 0` found; how the setter invalidates the sorted state is not modelled" % key)
+        return
+    problems = []
+    cid = clears[0]["i"]
+    ok, bad = cfg.must_pass(lambda x: any(y.get("i") == cid for y in walk(x)))
+    if not ok:
+        problems.append("a normal exit is reachable without clearing the sorted flag (the appended entry would never be sorted in)")
+    for n in fn.nodes():
+        if n.get("k") == "MCall" and strip_targs(n.get("ccls", "")) == strip_targs(fn.cls) and n.get("n") in srt and objkey(n.get("obj")) == "this":
+            problems.append("line %s: `%s` is called while the update is in progress; it sorts (and de-duplicates) the half-updated arrays and marks the container sorted, so the entry appended afterwards is never sorted in / merged (use the raw accessor)" % (n.get("l"), render(n)))
+    ck.ob("E7.no-resort-in-update", key, not problems, "; ".join(problems) if problems else "clears the sorted flag on every path and calls none of the re-sorting members %s" % sorted(srt),
+          fn.file, fn.line)
+
+
 def check_dispatch(ck, fn):
     """Arch::X::value* wrappers forward every parameter to the like-named slot of the implementation"""
     struct = strip_targs(fn.cls).rsplit("::", 1)[-1]
@@ -1109,6 +1165,7 @@ def run(tier):
     ck.rule("E1.operands", "Arch call sites of DenseVector/DenseVectorBlocked/SparseVector(Blocked): the array slots carry the receiver and every vector parameter exactly once (receiver in the output slot r), the scalar slot carries the scalar parameter. Broken for: any x != y, alpha != 1.", 65)
     ck.rule("E1.extent", "the extent slot carries the number of entries of the arrays passed: size<P>() for dense, used_elements<P>() for sparse vectors, P = perspective of the arrays (pod arrays with pod extent), of the receiver or an operand asserted equal; set_vec/set_vec_inv copy counts likewise. Broken for: block size > 1 (only 1/BlockSize of the data processed or overrun), sparse vectors with fewer entries than their dimension.", 71)
     ck.rule("E1.size-bookkeeping", "every extent a DenseVectorBlocked / SparseVectorBlocked constructor, convert, read_from or insertion records in _elements_size for its pod array is a pod count (size<Perspective::pod>(), blocks x BlockSize, or the very count the array was allocated with) - what Container::format/_copy_content iterate over; all sites of a class agree. Broken for: format()/copy() on range views or freshly built blocked vectors with BlockSize > 1 (only 1/BlockSize of the scalars touched).", 17)
+    ck.rule("E7.no-resort-in-update", "the element setter operator()(index, value) of SparseVector / SparseVectorBlocked clears the sorted flag on every path and, until it returns, calls no member that (transitively) runs sort() - the function's own CAUTION comment. Broken for: the insertion that exceeds the allocated capacity when it updates an existing index or is not the largest index: the container stays flagged sorted with an unsorted / duplicated tail, so used_elements(), operator()(i) and min/max(_abs)_element read stale data.", 2)
     ck.rule("E1.block-guard", "component_copy/component_copy_to guard the block index against the stride they pass to the kernel (0 <= block < BlockSize). Broken for: vectors with fewer blocks than BlockSize (valid index rejected), block >= BlockSize on long vectors (out-of-bounds write accepted).", 4)
     ck.rule("E1.dispatch", "every Arch::X::value / value_blocked / value_to wrapper forwards each of its parameters to the like-named slot of the implementation it selects, on every path. Broken for: all callers of that kernel.", 42)
     ck.rule("E4.map-fold", "TupleVector / PowerVector (recursive and base specialisation): every operation calls the same operation on first() (and rest()), every meta operand projected by the same projection as the receiver, other parameters unchanged and in place, reductions combined by + / Math::max / Math::min, norm2 = sqrt(norm2sqr), set_vec offsets rest by first().size<pod>(). Broken for: any composition with more than one block.", 171)
@@ -1127,6 +1184,7 @@ def run(tier):
 
     seen_fn = set()
     n_e0 = 0
+    sorters = sorting_members(all_facts)
     for facts in all_facts:
         ck.tu(facts)
         driver = facts.tu.startswith(featlib.VERIF)
@@ -1182,6 +1240,8 @@ def run(tier):
                         check_call_site(ck, fn, c)
                 if base in BLOCKED_CLASSES:
                     check_size_bookkeeping(ck, fn)
+                if base in ("FEAT::LAFEM::SparseVector", "FEAT::LAFEM::SparseVectorBlocked") and fn.name == "operator()" and len(fn.params) == 2 and not fn.d.get("const"):
+                    check_sparse_insert(ck, fn, sorters)
                 if fn.name in ("set_vec", "set_vec_inv"):
                     for c in fn.calls(callee_re=r"^FEAT::MemoryPool::copy$"):
                         check_copy_site(ck, fn, c)
